@@ -4,7 +4,7 @@ from __future__ import annotations
 
 import importlib
 
-CONTRACT_MODULES = ["contracts.curves", "contracts.groups", "contracts.closed", "contracts.fields", "contracts.ints", "contracts.purity", "contracts.hashing"]
+CONTRACT_MODULES = ["contracts.curves", "contracts.groups", "contracts.closed", "contracts.fields", "contracts.ints", "contracts.purity", "contracts.hashing", "contracts.codec"]
 
 _COMMON_TRUST = [
     "CPython semantics as modelled in DESIGN.md section 3 (mathematical ints, bytes as octet sequences, static name resolution, no monkey-patching)",
@@ -66,6 +66,13 @@ PROPS = {
         text="hkdf_extract and hkdf_expand are proved equal to RFC 5869 for all salts, IKMs, infos and every length 0..8160 (loop invariant okm = T(1)|..|T(i), z3 sequences over an uninterpreted HMAC); KeyGen is proved, by a loop invariant with a ghost round counter, to return the first non-zero candidate of the BLS draft v4 procedure (salt hashed before each attempt, IKM || 0x00, info || I2OSP(48,2), 48 bytes mod r), hence in [1, r-1] and a function of its inputs.",
         note="Termination of KeyGen is a statement about hash outputs and is assumed.",
         design_ref="DESIGN.md section 8 C16"),
+    "C11": dict(level="proof", trusted=_COMMON_TRUST + ["contracts of optimized_curve.is_inf / normalize / is_on_curve (proved generically under C13) are used at their call sites"],
+        assumptions=["A-PRIME: q prime", "L-SQRT34 and sq_eq_sq_cases (Lean) for G1 round-trip completeness",
+                     "L-SQRT8: modular_squareroot_in_FQ2(Y^2) = +-Y — assumed (Lean core in Roots.lean), needed only for G2 round-trip completeness",
+                     "closed facts (eval): no point of E or E' has y = 0, no point of E' has x = 0"],
+        text="For EVERY 384-bit word (pair of words) decompress_G1/G2 are proved to either raise ValueError or return a reduced on-curve point with z = 1 whose compression is exactly the input (soundness + canonicity, without trusting the square-root routines: their results are havocked and the code's own a-posteriori checks carry the proof), and to refuse exactly the malformed words; compress_G1/G2 are proved to produce the ZCash layout (flags in bits 383/382/381, sign = larger y, imaginary part first); round-trip completeness is proved from the square-root lemmas; the byte helpers give 48/96-byte big-endian strings.",
+        note="Known finding D2 (x = 0 on G1) is excluded from the completeness obligation and re-executed concretely on every run. G2 completeness rests on the assumed lemma L-SQRT8.",
+        design_ref="DESIGN.md section 8 C11"),
     "C17": dict(level="proof", trusted=_COMMON_TRUST, assumptions=[
         "A-ORDER: #E(F_p) = h1 r (forced by Hasse + r prime, eval) and #E'(F_p2) = h2 r (assumed; Hasse-interval cross-check by eval)",
         "A-STRUCT-G1: the cofactor part of E(F_p) has exponent dividing 1 - x (RFC 9380 section 8.8.1); needed only for 'clear_cofactor_G1 lands in the subgroup'",
